@@ -60,6 +60,9 @@ BUILT = {
  "C13": dict(tech=TV + " (TraceArrival.tla) + replay of query histories through the CurveCache state machine (TraceCache.tla)",
    text="extrapolate / extrapolate_steps / extrapolate_with_bound on every super-additive prefix of length 2-3 with entries <=6 (thorough 8) and random longer ones: values inside the original prefix unchanged, never more arrivals inside the extended prefix, never below the tight curve of the prefix-respecting sequences (Arrival.tla closure). Cache: seeded random histories (number_arrivals on three clones sharing the cache, live steps_iter iterators interleaved) are executed on the real ExtrapolatingCurve and replayed by TLC through the CurveCache machine; every answer must equal the eager (history-independent) answer and no call may panic.",
    note="Known finding F6 (partial extrapolation raises values beyond the extended prefix) listed. The cache machine itself is model-checked for history independence (MCCurveCache)."),
+ "C20": dict(tech=TV + ": the same calls recorded from a dev and from a release build, joined and compared by TLC (TraceLib.tla, TotalFails)",
+   text="Every driver of the framework (model queries, step iterators, cost models, request bounds, supplies, fixed-point search, the nine + six analyses, derived curves, extrapolation, cache histories; ~93000 calls in the quick tier) plus a corner-case driver (Never, empty interference, zero blocking, limit 1, D<C, subchain = whole workload, budget = period, step-less search spaces) is executed twice on identical seeded inputs: by a harness built with debug assertions and overflow checks (the library's own brute-force cross-checks are active) and by a release build. The two traces are joined call by call; TLC accepts a call iff both builds returned (a panic or a hang is not a behaviour of the specification) and returned the same value.",
+   note="Hang = no return within the watchdog (20 s, corner driver 6 s). Known findings F9/F9b/F3c (consequences of the pinned ArrivalCurvePrefix step 0) are listed; F8, F10, F13, F14 were repaired by fix: commits."),
 }
 m = {"version": 1, "setup_cmd": "bin/vf setup",
      "hooks": {"guard": "--cfg rta_verif",
